@@ -119,6 +119,17 @@ def check_graph(ctx, which, nodes, adj, catch, use_api=True, idom_ref=None, tag=
             if not any((adj[u] >> v) & 1 and num[u] < num[v] for u in range(n)):
                 ctx.violation("rpo-no-earlier-pred", "a non-entry node has no predecessor with a smaller number", dict(wit, node=v))
                 return
+        # numbering the same Graph object again (the decompiler does so after every graph edit) must give a valid numbering too
+        try:
+            g.compute_rpo()
+            num2 = [nodes[i].num for i in range(n)]
+        except Exception as e:
+            ctx.violation("rpo-second-call-raises", "a second compute_rpo on the same graph raises", dict(wit, exc=repr(e)[:200]))
+            return
+        if num2 != num:
+            ctx.violation("rpo-second-call-differs", "numbering the same unchanged graph a second time gives other numbers", dict(wit, second=num2))
+            return
+        ctx.count("second_compute_rpo_calls")
         if n >= 3 and nedges >= n:
             if n <= 5:
                 ctx.sig("C19", n, tuple(num), nback, selfloop, ncatch > 0, *sigextra)
@@ -258,6 +269,119 @@ def shard_random(ctx, arg):
     ctx.count("random_graphs", count)
 
 
+def _reach(succ, s):
+    seen = {s}
+    st = [s]
+    while st:
+        u = st.pop()
+        for v in succ.get(u, ()):
+            if v not in seen:
+                seen.add(v)
+                st.append(v)
+    return seen
+
+
+def shard_history(ctx, arg):
+    """C19/C18 on graphs that are EDITED between numberings, the way the decompiler uses a Graph: add nodes and edges, remove nodes, re-insert a
+    then compute_rpo / immediate_dominators again; a model graph (dict of successor sets) is kept in parallel. (Re-inserting a removed node OBJECT is
+    not generated: Graph.remove_node leaves the node's own adjacency entries behind, so what graph such an object denotes is undefined.)"""
+    which, idx, count = arg
+    from androguard.decompiler.basic_blocks import StatementBlock
+    from androguard.decompiler.graph import Graph
+    rng = ctx.rng("graph-history", which, idx)
+    for c in range(count):
+        g = Graph()
+        nodes = []
+        succ = {}
+        hist = []
+        counter = [0]
+
+        def new_node():
+            counter[0] += 1
+            nd = StatementBlock("h%d" % counter[0], [])
+            g.add_node(nd)
+            nodes.append(nd)
+            succ[nd] = set()
+            return nd
+        entry = new_node()
+        g.entry = entry
+        for _ in range(rng.randint(2, 6)):
+            nd = new_node()
+            p = rng.choice(nodes[:-1])
+            g.add_edge(p, nd)
+            succ[p].add(nd)
+        removed = []
+        for step in range(rng.randint(1, 10)):
+            r = rng.random()
+            if r < 0.35:
+                a, b = rng.choice(nodes), rng.choice(nodes)
+                g.add_edge(a, b)
+                succ[a].add(b)
+                hist.append(("edge", nodes.index(a), nodes.index(b)))
+            elif r < 0.5:
+                nd = new_node()
+                p = rng.choice(nodes[:-1])
+                g.add_edge(p, nd)
+                succ[p].add(nd)
+                hist.append(("new", nodes.index(p)))
+            elif r < 0.65 and len(nodes) > 2:
+                nd = rng.choice(nodes[1:])
+                preds = [u for u in nodes if nd in succ[u] and u is not nd]
+                g.remove_node(nd)
+                nodes.remove(nd)
+                del succ[nd]
+                for u in succ:
+                    succ[u].discard(nd)
+                removed.append((nd, preds))
+                hist.append(("remove", nd.name))
+            else:
+                hist.append(("renumber",))
+            # only rooted graphs are in C19's domain
+            reach = _reach(succ, entry)
+            if len(reach) != len(nodes):
+                continue
+            ctx.ev()
+            ctx.count("history_steps_checked")
+            wit = {"history": hist, "nodes": [x.name for x in nodes], "succ": {x.name: sorted(y.name for y in succ[x]) for x in nodes}}
+            if which == "C19":
+                try:
+                    g.compute_rpo()
+                except Exception as e:
+                    ctx.violation("rpo-history-raises", "compute_rpo raises on an edited graph", dict(wit, exc=repr(e)[:200]))
+                    break
+                num = {x: x.num for x in nodes}
+                wit["num"] = [x.num for x in nodes]
+                bad = None
+                if entry.num != 1:
+                    bad = "rpo-entry-not-1"
+                elif sorted(num.values()) != list(range(1, len(nodes) + 1)):
+                    bad = "rpo-not-permutation"
+                else:
+                    for u in nodes:
+                        for v in succ[u]:
+                            if num[u] >= num[v] and u not in _reach(succ, v):
+                                bad = "rpo-forward-edge-inverted"
+                    for v in nodes[1:] if nodes[0] is entry else nodes:
+                        if v is not entry and not any(v in succ[u] and num[u] < num[v] for u in nodes):
+                            bad = bad or "rpo-no-earlier-pred"
+                if bad:
+                    ctx.violation(bad + "-after-graph-edits", "after a sequence of graph edits the numbering is not a valid reverse post-order", wit)
+                    break
+            else:
+                try:
+                    dom = g.immediate_dominators()
+                except Exception as e:
+                    ctx.violation("dom-history-raises", "immediate_dominators raises on an edited graph", dict(wit, exc=repr(e)[:200]))
+                    break
+                ref = G.idoms_big({u: list(succ[u]) for u in nodes}, entry)
+                got = {k: v for k, v in dom.items()}
+                if got != ref:
+                    ctx.violation("dom-wrong-after-graph-edits", "after a sequence of graph edits the dominators differ from the definition",
+                                  dict(wit, got={k.name: (v.name if v else None) for k, v in got.items()}, want={k.name: (v.name if v else None) for k, v in ref.items()}))
+                    break
+            ctx.sig(which, "hist", len(nodes), tuple(h[0] for h in hist)[-4:])
+
+
 def run(ctx, which):
     ctx.rule = ("real Graph of StatementBlock nodes (edges split between edges/catch_edges); "
                 "exhaustive: every adjacency matrix on n labelled nodes with entry 0 (self-loops, 2-cycles, unreachable nodes included for C18; "
@@ -279,11 +403,14 @@ def run(ctx, which):
     per = nrand // 16
     for i in range(16):
         shards.append(("shard_random", (which, i, per, 300)))
+    for i in range(4):
+        shards.append(("shard_history", (which, i, 500 if ctx.quick else 20000)))
     # run_shards takes a single func; dispatch through one entry point
     ctx.run_shards(MOD, "dispatch", [[f, list(a)] for f, a in shards], timeout=3000)
     ctx.exhaustive = True
     ctx.extra["exhaustive_part"] = "all 2^(n*n) adjacency matrices for n <= %d" % nmax
     ctx.require_counter("immediate_dominators_calls" if which == "C18" else "compute_rpo_calls", 1000)
+    ctx.require_counter("history_steps_checked", 200)
     ctx.min_distinct = 20
 
 
